@@ -116,6 +116,21 @@ def variant_files(v):
         f['sub/build.bfg'] = ("static_library('s', find_files('*.c'))\n")
         f['sub/s.c'] = 'int s;\n'
         f['options.bfg'] = "argument('foo', default='x')\n"
+    elif v == 'subsub':
+        # root -> sub -> sub/detail, and a sibling submodule: every script is
+        # an input of the regeneration
+        f['build.bfg'] = ("project('p')\n"
+                          "submodule('sub')\n"
+                          "submodule('other')\n"
+                          "executable('prog', ['main.c'])\n")
+        f['sub/build.bfg'] = ("submodule('detail')\n"
+                              "static_library('s', find_files('*.c'))\n")
+        f['sub/detail/build.bfg'] = "static_library('d', ['d.c'])\n"
+        f['sub/detail/d.c'] = 'int d;\n'
+        f['other/build.bfg'] = "static_library('o', ['o.c'])\n"
+        f['other/o.c'] = 'int o;\n'
+        f['sub/s.c'] = 'int s;\n'
+        f['options.bfg'] = "argument('foo', default='x')\n"
     elif v == 'pkg':
         f['build.bfg'] = ("project('p', version='1.0')\n"
                           "lib = static_library('foo', "
@@ -144,7 +159,7 @@ EDITS = ['add_match', 'add_other', 'remove_match', 'rename_match',
 def apply_edit(p, v, op, n):
     """returns the Edit event or None if not applicable in this state"""
     S = p.src
-    lib = os.path.join(S, 'sub' if v == 'sub' else 'lib')
+    lib = os.path.join(S, 'sub' if v in ('sub', 'subsub') else 'lib')
     j = os.path.join
     if op == 'add_match':
         regen.write(j(lib, 'n%d.c' % n), 'int n%d;\n' % n)
@@ -181,10 +196,12 @@ def apply_edit(p, v, op, n):
             return None
         with open(j(S, 'options.bfg'), 'a') as f:
             f.write("argument('bar%d', default='y')\n" % n)
-    elif op == 'edit_subscript':
-        if v != 'sub':
+    elif op in ('edit_subscript', 'edit_subsubscript', 'edit_otherscript'):
+        rel = {'edit_subscript': 'sub', 'edit_subsubscript': 'sub/detail',
+               'edit_otherscript': 'other'}[op]
+        if not os.path.exists(j(S, rel, 'build.bfg')):
             return None
-        with open(j(S, 'sub', 'build.bfg'), 'a') as f:
+        with open(j(S, rel, 'build.bfg'), 'a') as f:
             f.write("command('s%d', cmd=['true'])\n" % n)
     elif op == 'add_header':
         regen.write(j(S, 'include', 'h%d.h' % n), '#define H 1\n')
@@ -286,6 +303,13 @@ def main(argv):
     for v in variants:
         for b in (('make', 'ninja') if not ck.quick else ('make',)):
             for d in directed:
+                cases.append({'variant': v, 'backend': b, 'edits': d})
+    # every script of a tree of submodules is an input of the regeneration
+    for v in ('sub', 'subsub'):
+        for b in ('make', 'ninja'):
+            for d in (['edit_subscript'], ['edit_subsubscript'],
+                      ['edit_otherscript'], ['edit_options'],
+                      ['edit_subscript', 'edit_subsubscript', 'add_match']):
                 cases.append({'variant': v, 'backend': b, 'edits': d})
     if ck.quick:
         for v in ('sub', 'pkg', 'findrec'):
